@@ -97,7 +97,8 @@ func survivingHistory(cfg Cfg, hist []Op) (surv []Op, rolledBack bool) {
 // nodeRecords returns the tree-node records in canonical form. A root record that is a reference to the root
 // (v,1) of an older version is resolved the way the library resolves it (GetRoot): when (v,1) is gone and the
 // re-keyed (v,0) exists, the reference means (v,0). Two stores that differ only in which of the two spellings a
-// reference uses are the same tree for every reader, so the twin comparison must not tell them apart.
+// reference uses are the same tree for every reader, so the twin comparison must not tell them apart. The same
+// holds for the child links stored inside inner nodes (GetNode resolves (v,1) to (v,0) in the same way).
 func nodeRecords(kvs []vstore.KV) []vstore.KV {
 	have := map[string]bool{}
 	for _, kv := range kvs {
@@ -108,10 +109,24 @@ func nodeRecords(kvs []vstore.KV) []vstore.KV {
 	var out []vstore.KV
 	for _, kv := range kvs {
 		if len(kv.K) > 0 && kv.K[0] == 's' {
-			if nk, ok := ref.ParseNodeKey(kv.V); ok && nk.Nonce == 1 && !have[string(kv.V)] {
-				alt := ref.NodeKey{Version: nk.Version, Nonce: 0}.Bytes()
-				if have[string(alt)] {
-					kv = vstore.KV{K: kv.K, V: alt}
+			canon := func(nk ref.NodeKey) ref.NodeKey {
+				if nk.Nonce == 1 && !have[string(nk.Bytes())] {
+					if alt := (ref.NodeKey{Version: nk.Version, Nonce: 0}); have[string(alt.Bytes())] {
+						return alt
+					}
+				}
+				return nk
+			}
+			if nk, ok := ref.ParseNodeKey(kv.V); ok {
+				kv = vstore.KV{K: kv.K, V: canon(nk).Bytes()}
+			} else if self, ok := ref.ParseNodeKey(kv.K); ok && len(kv.V) > 0 {
+				// child links of an inner node are resolved the same way (GetNode)
+				if d, err := ref.DecodeNode(self, kv.V); err == nil && !d.IsLeaf() && d.LeftLegacy == nil && d.RightLegacy == nil {
+					l, r := canon(d.Left), canon(d.Right)
+					if l != d.Left || r != d.Right {
+						d.Left, d.Right = l, r
+						kv = vstore.KV{K: kv.K, V: ref.EncodeNode(d)}
+					}
 				}
 			}
 			out = append(out, kv)
